@@ -398,9 +398,13 @@ class IndentationFitter(object):
         # settings (and may be the caller's object); scaling them in-place
         # would accumulate over multiple passes and repeated fits.
         params_initial = copy.deepcopy(self.fp["params_initial"])
-        # modify contact point with gcf_k
-        cpi = params_initial["contact_point"].value
-        params_initial["contact_point"].set(value=cpi * self.fp["gcf_k"])
+        # modify contact point with gcf_k (the limits are given in
+        # measured units as well and must be corrected alongside)
+        gcf_k = self.fp["gcf_k"]
+        cpar = params_initial["contact_point"]
+        cpi, cpmin, cpmax = cpar.value, cpar.min, cpar.max
+        cpar.set(min=-np.inf, max=np.inf)
+        cpar.set(value=cpi * gcf_k, min=cpmin * gcf_k, max=cpmax * gcf_k)
         weight_cp = self.fp["weight_cp"]
 
         # boolean array indexing the segment
@@ -442,7 +446,9 @@ class IndentationFitter(object):
             fit_res[segid] = md.residual(fit.params, xseg, yseg, weight_cp)
             # inverse contact point correction with gcf_k
             cpf = fit.params["contact_point"].value
-            fit.params["contact_point"].set(value=cpf / self.fp["gcf_k"])
+            fit.params["contact_point"].set(min=-np.inf, max=np.inf)
+            fit.params["contact_point"].set(value=cpf / gcf_k,
+                                            min=cpmin, max=cpmax)
             # add fit results to fp dictionary
             self.fp.update({"params_fitted": fit.params,
                             "chi_sqr": fit.chisqr,
